@@ -164,6 +164,27 @@ def groups(tier, seed):
                 cs.append({'roots': [['bare:' + n, a, b, m], ['bare:plain', None, None, None]]})
         cs.append({'roots': [['bare:plain', None, None, None], ['bare:' + n, None, None, None], ['bare:asc' if n != 'asc' else 'bare:rx', None, None, None]]})
     yield {'tree': kw, 'layer': 'keyword-named-roots', 'cases': cs}
+    # disjoint roots whose spellings end in the same names (../lib and lib, /abs/.../docs/api and docs/api), in both orders
+    same = {'lib': D({'a': F(1), 'x': D({'b': F(1)})}), 'docs': D({'api': D({'e': F(1)})}),
+            'w': D({'lib': D({'c': F(1), 'y': D({'c2': F(1)})}), 'docs': D({'api': D({'d': F(1)})}), 'only': D({'o': F(1)})})}
+    cs = []
+    for pair in ((['up:w:lib'], ['in:w:lib']), (['up:w:docs/api'], ['in:w:docs/api']), (['absin:w:lib'], ['in:w:lib']), (['absin:w:docs/api'], ['in:w:docs/api']),
+                 (['up:w:lib'], ['absin:w:w/lib']), (['up:w:docs'], ['in:w:docs'])):
+        for first, second in (pair, pair[::-1]):
+            for m in (None, 'dfs'):
+                for (a, b) in ((None, None), (None, 1), (2, None)):
+                    cs.append({'roots': [[first[0], a, b, m], [second[0], None, None, m]]})
+                    cs.append({'roots': [[first[0], None, None, m], ['in:w:only', None, None, None], [second[0], a, b, m]]})
+    yield {'tree': same, 'layer': 'same-tail-roots', 'cases': cs}
+    # entries with several names (hard links): every name is an entry of its own
+    hl = {'a': F(1), 'b': {'t': 'f', 'link': 'a'}, 'd': D({'c': {'t': 'f', 'link': 'a'}, 'e': F(2), 'deep': D({'f': {'t': 'f', 'link': 'd/e'}, 'g': {'t': 'f', 'link': 'a'}})}),
+          'z': D({'h': {'t': 'f', 'link': 'd/e'}, 'i': F(3)})}
+    cs = [{'roots': [[r, a, b, m]]} for r in ('dot', 'abs', 'rel', 'omit') for (a, b) in windows(3, True) for m in (None, 'bfs', 'dfs')]
+    for m in (None, 'dfs'):
+        for (a, b) in ((None, None), (None, 1), (2, None), (1, 1)):
+            cs.append({'roots': [['sub:d', a, b, m], ['sub:z', None, None, m]]})
+            cs.append({'roots': [['sub:z', a, b, m], ['sub:d', None, None, m]]})
+    yield {'tree': hl, 'layer': 'hard-links', 'cases': cs}
     # `unless symlinks is given`: a link to a directory outside the root, whose path is a textual prefix of the root's, is descended
     for mode in (None, 'bfs', 'dfs'):
         for spelling in ('rel', 'abs'):
@@ -262,6 +283,15 @@ def root_arg(spec, holder):
         return None, 'h', ''   # filled by caller (needs a directory name)
     if r.startswith('sub:'):
         return 'real/t/' + r[4:], 'h', r[4:]
+    if r.startswith('up:'):         # ../<target> from inside the sub-directory <cwdsub>
+        _, cwdsub, target = r.split(':', 2)
+        return '../' + target, 'c:' + cwdsub, target
+    if r.startswith('in:'):         # <name> from inside the sub-directory <cwdsub>
+        _, cwdsub, name = r.split(':', 2)
+        return name, 'c:' + cwdsub, cwdsub + '/' + name
+    if r.startswith('absin:'):      # the absolute spelling of <path>, from inside <cwdsub>
+        _, cwdsub, path_ = r.split(':', 2)
+        return os.path.join(holder, 'real', 't', path_), 'c:' + cwdsub, path_
     if r.startswith('bare:'):       # the bare name of a top-level directory, from inside the tree
         return r[5:], 't', r[5:]
     if r == 'slash':
@@ -386,13 +416,15 @@ def eval_case(env, tree, holder, troot, topdirs, case, layer, jail_tree):
         if m:
             argv += [m]
         subs.append(sub)
-        subtree = tree[sub]['c'] if sub else tree
+        subtree = tree
+        for part in (sub.split('/') if sub else []):
+            subtree = subtree[part]['c']
         if jail_tree is not None:
             subtree = jail_tree
         pre = sub + '/' if sub else ''
         expected.append([(pre + p, l) for p, l in model_rows(subtree, a, b)])
     argv += ['into', 'list']
-    cwd = {'t': troot, 'h': holder, 'j': '/'}[cwdkind]
+    cwd = os.path.join(troot, cwdkind[2:]) if cwdkind.startswith('c:') else {'t': troot, 'h': holder, 'j': '/'}[cwdkind]
     if jail_tree is not None:
         o = core.run_jailed(env, troot, argv)
         base = '/'
